@@ -3,6 +3,7 @@ import AGV.Util.Judge
 import AGV.Core.Types
 import AGV.Core.VSchema
 import AGV.Model.Validate
+import AGV.Model.ValidateDynSchema
 import AGV.Spec.Validate
 import AGV.Gen.Rules
 
@@ -35,11 +36,16 @@ structure Case where
   doc : Doc
   opName : Option String
   vars : List (String × GValue)
+  /-- the request ran against the schema built with `async_graphql::dynamic` (stream `dynamic`) -/
+  dynamic : Bool := false
 
 def case? (s : Sexp) : Option Case :=
   match s with
   | .list [.atom "case", sc, d, o, v, _] => do
     some { S := ← vschema? sc, doc := ← Decode.doc? d, opName := ← Decode.optStr? o, vars := ← Decode.vars? v }
+  | .list [.atom "case", sc, d, o, v, _, .list [.atom "flavour", .atom "dynamic"]] => do
+    some { S := ← vschema? sc, doc := ← Decode.doc? d, opName := ← Decode.optStr? o, vars := ← Decode.vars? v,
+           dynamic := true }
   | _ => none
 
 structure Impl where
@@ -189,6 +195,12 @@ def judge (known : List String) (case impl : String) : JudgeOut :=
   if impl.trimAscii.toString = "(foreign)" then .ok else
   match (parse case).bind case?, (parse impl).bind impl? with
   | some c, some i =>
+    -- stream `dynamic`: the registry the case carries (dumped from the REAL registry of the schema
+    -- built with async_graphql::dynamic) must be the one `c09_dynamic_schema_wf` /
+    -- `c09_dynamic_corrected` are about; otherwise those theorems speak of a registry the library
+    -- no longer builds (rerun tools/c09_dyn_schema.py)
+    if c.dynamic && !Model.ValidateDynSchema.vschemaEq c.S Model.ValidateDynSchema.dynSchema then
+      .tie "registry dump of the dynamic schema differs from Model/ValidateDynSchema.lean" "" else
     let viol := Spec.Validate.violations {} c.S c.doc c.vars c.opName
     let specStr := if viol.isEmpty then "valid" else "invalid: " ++ "; ".intercalate viol
     let dK := defectsOf known
